@@ -104,7 +104,7 @@ fn compile_native_asset_for_output(
     ir: &tir::AssetExpr,
 ) -> Result<primitives::Multiasset<primitives::PositiveCoin>, Error> {
     let policy = coercion::expr_into_bytes(&ir.policy)?;
-    let policy = primitives::Hash::from(policy.as_slice());
+    let policy = coercion::bytes_into_hash(policy.as_slice())?;
     let asset_name = coercion::expr_into_bytes(&ir.asset_name)?;
     let amount = coercion::expr_into_number(&ir.amount)?;
     let amount: u64 = quantity_into(amount, "asset amount")?;
@@ -121,7 +121,7 @@ fn compile_native_asset_for_mint(
     is_burn: bool,
 ) -> Result<primitives::Multiasset<primitives::NonZeroInt>, Error> {
     let policy = coercion::expr_into_bytes(&ir.policy)?;
-    let policy = primitives::Hash::from(policy.as_slice());
+    let policy = coercion::bytes_into_hash(policy.as_slice())?;
     let asset_name = coercion::expr_into_bytes(&ir.asset_name)?;
     let amount = coercion::expr_into_number(&ir.amount)?;
 
@@ -172,11 +172,15 @@ fn compile_adhoc_script(
         .transpose()?
         .map(|v| v as PlutusVersion)
         .unwrap_or(3);
-    let script_bytes = script.unwrap().to_vec();
+    let script_bytes = script
+        .ok_or(Error::MissingExpression("script".to_string()))?
+        .to_vec();
     let script_ref = match version {
         0 => {
             let decoded: pallas::codec::utils::KeepRaw<'_, primitives::NativeScript> =
-                minicbor::decode(&script_bytes).unwrap();
+                minicbor::decode(&script_bytes).map_err(|_| {
+                    Error::FormatError("error decoding native script cbor".to_string())
+                })?;
             let owned_script = decoded.to_owned();
             primitives::ScriptRef::NativeScript(owned_script)
         }
@@ -340,11 +344,13 @@ fn compile_inputs(tx: &tir::Tx) -> Result<Vec<primitives::TransactionInput>, Err
         .iter()
         .flat_map(|x| coercion::expr_into_utxo_refs(&x.utxos))
         .flatten()
-        .map(|x| primitives::TransactionInput {
-            transaction_id: x.txid.as_slice().into(),
-            index: x.index as u64,
+        .map(|x| {
+            Ok(primitives::TransactionInput {
+                transaction_id: coercion::bytes_into_hash(x.txid.as_slice())?,
+                index: x.index as u64,
+            })
         })
-        .collect();
+        .collect::<Result<_, Error>>()?;
 
     // utxo sets are hash sets: emit the inputs in the ledger's canonical order so that the
     // payload doesn't depend on iteration order
@@ -490,9 +496,18 @@ fn compile_vote_delegation_certificate(
     x: &tir::AdHocDirective,
     network: Network,
 ) -> Result<primitives::Certificate, Error> {
-    let stake = coercion::expr_into_stake_credential(&x.data["stake"], network)?;
-    let drep = coercion::expr_into_bytes(&x.data["drep"])?;
-    let drep = primitives::DRep::Key(drep.as_slice().into());
+    let stake = x
+        .data
+        .get("stake")
+        .ok_or(Error::MissingExpression("stake credential".to_string()))?;
+    let stake = coercion::expr_into_stake_credential(stake, network)?;
+
+    let drep = x
+        .data
+        .get("drep")
+        .ok_or(Error::MissingExpression("drep".to_string()))?;
+    let drep = coercion::expr_into_bytes(drep)?;
+    let drep = primitives::DRep::Key(coercion::bytes_into_hash(drep.as_slice())?);
 
     Ok(primitives::Certificate::VoteDeleg(stake, drep))
 }
@@ -518,13 +533,17 @@ fn compile_reference_inputs(tx: &tir::Tx) -> Result<Vec<primitives::TransactionI
         .iter()
         .flat_map(coercion::expr_into_utxo_refs)
         .flatten()
-        .map(|x| primitives::TransactionInput {
-            transaction_id: x.txid.as_slice().into(),
-            index: x.index as u64,
+        .map(|x| {
+            Ok::<_, Error>(primitives::TransactionInput {
+                transaction_id: coercion::bytes_into_hash(x.txid.as_slice())?,
+                index: x.index as u64,
+            })
         });
 
     // reference inputs form a set: two blocks may point at the same utxo
     for item in all {
+        let item = item?;
+
         if !refs.contains(&item) {
             refs.push(item);
         }
@@ -534,17 +553,18 @@ fn compile_reference_inputs(tx: &tir::Tx) -> Result<Vec<primitives::TransactionI
 }
 
 fn compile_collateral(tx: &tir::Tx) -> Result<Vec<TransactionInput>, Error> {
-    Ok(tx
-        .collateral
+    tx.collateral
         .iter()
         .filter_map(|collateral| collateral.utxos.as_option())
         .flat_map(coercion::expr_into_utxo_refs)
         .flatten()
-        .map(|x| primitives::TransactionInput {
-            transaction_id: x.txid.as_slice().into(),
-            index: x.index as u64,
+        .map(|x| {
+            Ok(primitives::TransactionInput {
+                transaction_id: coercion::bytes_into_hash(x.txid.as_slice())?,
+                index: x.index as u64,
+            })
         })
-        .collect())
+        .collect()
 }
 
 fn compile_required_signers(tx: &tir::Tx) -> Result<Option<primitives::RequiredSigners>, Error> {
@@ -684,7 +704,9 @@ fn compile_single_spend_redeemer(
     let index = sorted_inputs
         .iter()
         .position(|x| utxo_ref_matches(input_id, x))
-        .unwrap();
+        .ok_or(Error::ConsistencyError(
+            "redeemer for an utxo that is not a transaction input".to_string(),
+        ))?;
 
     let redeemer = primitives::Redeemer {
         tag: primitives::RedeemerTag::Spend,
@@ -763,7 +785,7 @@ fn compile_single_mint_redeemer(
         .first()
         .ok_or(Error::MissingExpression("missing asset".to_string()))?;
     let policy = coercion::expr_into_bytes(&asset.policy)?;
-    let policy = primitives::Hash::from(policy.as_slice());
+    let policy = coercion::bytes_into_hash(policy.as_slice())?;
 
     let out = primitives::Redeemer {
         tag: primitives::RedeemerTag::Mint,
@@ -1037,16 +1059,26 @@ fn infer_plutus_version(witness_set: &primitives::WitnessSet) -> PlutusVersion {
 fn compute_script_data_hash(
     witness_set: &primitives::WitnessSet,
     pparams: &PParams,
-) -> Option<primitives::Hash<32>> {
+) -> Result<Option<primitives::Hash<32>>, Error> {
+    // nothing to hash (and no cost model needed) unless the transaction runs scripts
+    if witness_set.redeemer.is_none() && witness_set.plutus_data.is_none() {
+        return Ok(None);
+    }
+
     let version = infer_plutus_version(witness_set);
 
-    let cost_model = pparams.cost_models.get(&version).unwrap();
+    let cost_model = pparams
+        .cost_models
+        .get(&version)
+        .ok_or(Error::MissingExpression(format!(
+            "cost model for plutus language {version}"
+        )))?;
 
     let language_view = primitives::LanguageView(version, cost_model.clone());
 
     let data = primitives::ScriptData::build_for(witness_set, &Some(language_view));
 
-    data.map(|x| x.hash())
+    Ok(data.map(|x| x.hash()))
 }
 
 pub fn entry_point(tx: &tir::Tx, pparams: &PParams) -> Result<primitives::Tx<'static>, Error> {
@@ -1054,7 +1086,8 @@ pub fn entry_point(tx: &tir::Tx, pparams: &PParams) -> Result<primitives::Tx<'st
     let transaction_witness_set = compile_witness_set(tx, &transaction_body, pparams.network)?;
     let auxiliary_data = compile_auxiliary_data(tx)?;
 
-    transaction_body.script_data_hash = compute_script_data_hash(&transaction_witness_set, pparams);
+    transaction_body.script_data_hash =
+        compute_script_data_hash(&transaction_witness_set, pparams)?;
     transaction_body.auxiliary_data_hash = auxiliary_data.as_ref().map(|x| x.compute_hash());
 
     Ok(primitives::Tx {
